@@ -20,6 +20,7 @@ static LD const CSAFE = sizeof(R) > 8 ? 6.0L : 4.0L;
 // type-dependent ranges: scalings are chosen so that no product of two entries leaves the normal range of a_real
 static int const SC_GLOBAL_NUM = sizeof(R) == 4 ? 3 : (sizeof(R) == 8 ? 30 : 480); // global scale exponent = rd_int(100) * NUM / 10
 static int const SC_LIM = sizeof(R) == 4 ? 5 : (sizeof(R) == 8 ? 40 : 600);       // per-row / per-column exponent limit
+static int const SC_EXT = (std::numeric_limits<R>::max_exponent - 14) / 2;                // 505 / 57 / 8185: symmetric scaling by 2^(s_i+s_j)
 static LD const FLOOR_ = sizeof(R) == 4 ? 1e-40L : (sizeof(R) == 8 ? 1e-300L : 1e-4900L);
 static LD const DET_HUGE = sizeof(R) == 4 ? 1e36L : (sizeof(R) == 8 ? 1e300L : 1e4900L);
 static LD const DET_TINY = sizeof(R) == 4 ? 1e-34L : (sizeof(R) == 8 ? 1e-290L : 1e-4890L);
@@ -45,10 +46,10 @@ static bool prefixes_ok(std::vector<LD> const &f, LD start, bool square_at_end)
 }
 static LD gam(unsigned k) { return (k * U_) / (1 - k * U_); }
 
-enum { L_PLU, L_LDL, L_LLT, L_ROW_EXCHANGE, L_SINGULAR_CLASS, L_MUST_SUCCEED, L_BAD_SCALE, L_NEAR_SINGULAR, L_GLOBAL_SCALE, L_LAST_STEP_SWAP, L_HILBERT, L_N_GE_8, L_FAILED_OK, L_PERM_NOT_INVOLUTION, L_DET_UNREPRESENTABLE, L_LARGE_ORDER };
+enum { L_PLU, L_LDL, L_LLT, L_ROW_EXCHANGE, L_SINGULAR_CLASS, L_MUST_SUCCEED, L_BAD_SCALE, L_NEAR_SINGULAR, L_GLOBAL_SCALE, L_LAST_STEP_SWAP, L_HILBERT, L_N_GE_8, L_FAILED_OK, L_PERM_NOT_INVOLUTION, L_DET_UNREPRESENTABLE, L_LARGE_ORDER, L_EXTREME_SCALE };
 static char const *const labels[] = {"plu", "ldl", "llt", "row_exchange_happened", "exactly_singular_class", "robustly_nonsingular_class", "rows_cols_scaled_2^k",
                                      "near_singular", "global_scale_2^s", "exchange_at_last_step", "hilbert_like", "n_ge_8", "factorization_reported_failure",
-                                     "permutation_not_self_inverse", "determinant_not_representable", "order_13_to_65_pattern_filled", nullptr};
+                                     "permutation_not_self_inverse", "determinant_not_representable", "order_13_to_65_pattern_filled", "symmetric_scaling_over_nearly_the_whole_exponent_range", nullptr};
 static char const *const metrics[] = {"max_reconstruction_ratio", "max_solve_ratio", "max_inverse_ratio", "max_det_ratio", "max_lndet_ratio", nullptr};
 static uint8_t const dict[] = {3, 4, 7, 8, 9, 10, 11};
 static vp_info const info = {"C08", "factor", "", labels, metrics, 700, dict, sizeof(dict)};
@@ -87,7 +88,7 @@ static bool finite_all(R const *p, size_t n)
 // general matrix classes; returns class id. Fills M (n x n).
 static int gen_general(Tape &t, Ctx &cx, unsigned n, std::vector<R> &M, int &expect /* 0 none, 1 must fail, 2 must succeed */)
 {
-    int cls = t.u8() % 12;
+    int cls = t.u8() % 13;
     expect = 0;
     M.assign(size_t(n) * n, R(0));
     auto at = [&](unsigned i, unsigned j) -> R & { return M[size_t(i) * n + j]; };
@@ -176,6 +177,27 @@ static int gen_general(Tape &t, Ctx &cx, unsigned n, std::vector<R> &M, int &exp
         for (unsigned j = 0; j < n; ++j) { at(r, j) = 0; }
         expect = 1;
         cx.label(L_SINGULAR_CLASS);
+        break; }
+    case 12: {
+        // badly scaled block-diagonal matrix: up to four uncoupled diagonal blocks of small integers, block b multiplied by
+        // 4^S_b with S_b anywhere in +-SC_EXT (pivots from ~min to ~max of the type within one matrix, no product mixes scales)
+        std::vector<unsigned> blk(n);
+        std::vector<int> sx(n);
+        unsigned b = 0;
+        int sb = int((g_pat ? pat_next() : t.u16()) % unsigned(2 * SC_EXT + 1)) - SC_EXT;
+        for (unsigned i = 0; i < n; ++i)
+        {
+            if (i && b < 3 && (g_pat ? pat_next() : t.u8()) % 3 == 0)
+            {
+                ++b;
+                sb = int((g_pat ? pat_next() : t.u16()) % unsigned(2 * SC_EXT + 1)) - SC_EXT;
+            }
+            blk[i] = b;
+            sx[i] = sb;
+        }
+        for (unsigned i = 0; i < n; ++i) { for (unsigned j = 0; j < n; ++j) { at(i, j) = blk[i] == blk[j] ? std::ldexp(R(rd_int(t, 9)), sx[i] + sx[j]) : R(0); } }
+        cx.label(L_BAD_SCALE);
+        cx.label(L_EXTREME_SCALE);
         break; }
     default:
         for (auto &v : M) { v = rd_real(t, -20, 20); }
@@ -315,6 +337,8 @@ static void check_plu(Tape &t, Ctx &cx, unsigned n)
             if (!(fabsl(s) <= bound)) { cx.fail(sig, "%s: |b - A x|(%u) = %.3Lg exceeds %.3Lg (n=%u, class %d)", what, i, fabsl(s), bound, n, cls); }
         }
     };
+    bool extreme = cls == 12; // (with pivots near both ends of the range the solution itself leaves the normal range)
+    if (!extreme)
     {
         std::vector<R> b(n);
         bool ints = t.coin();
@@ -327,6 +351,7 @@ static void check_plu(Tape &t, Ctx &cx, unsigned n)
         if (finite_all(x.p, n)) { resid(x.p, b, "plu:solve_residual", "plu_solve", 1); }
         else { ++cx.rep->excluded; }
     }
+    if (!extreme)
     {
         Blk I1(size_t(n) * n), I2(size_t(n) * n), tmp(n);
         a_real_plu_inv(n, A.p, p, tmp.p, I1.p);
@@ -386,7 +411,8 @@ static void check_sym(Tape &t, Ctx &cx, unsigned n, int kind)
     std::vector<R> A0(size_t(n) * n, R(0));
     auto at = [&](unsigned i, unsigned j) -> R & { return A0[size_t(i) * n + j]; };
     int expect = 0;
-    int cls = t.u8() % 9;
+    int cls = t.u8() % 10;
+    bool extreme = false; // scaling over (nearly) the whole exponent range: factorisation, reconstruction and determinant family only
     auto sym_from = [&](std::vector<R> const &B) {
         for (unsigned i = 0; i < n; ++i) { for (unsigned j = 0; j < n; ++j) { at(i, j) = B[size_t(i) * n + j] + B[size_t(j) * n + i]; } }
     };
@@ -429,6 +455,32 @@ static void check_sym(Tape &t, Ctx &cx, unsigned n, int kind)
         int s = rd_int(t, 100) * SC_GLOBAL_NUM / 10;
         for (auto &v : A0) { v = std::ldexp(v, s); }
         cx.label(L_GLOBAL_SCALE);
+        break; }
+    case 9: { // badly scaled block-diagonal SPD matrix: pivots from ~min to ~max of the type within one matrix
+        // block diagonal: up to four diagonal blocks, no coupling between them (so no product mixes two scales and the
+        // elimination itself stays in range), block b multiplied by 4^S_b with S_b anywhere in +-SC_EXT
+        std::vector<unsigned> blk(n);
+        std::vector<int> sx(n);
+        {
+            unsigned b = 0;
+            int sb = int((g_pat ? pat_next() : t.u16()) % unsigned(2 * SC_EXT + 1)) - SC_EXT;
+            for (unsigned i = 0; i < n; ++i)
+            {
+                if (i && b < 3 && (g_pat ? pat_next() : t.u8()) % 3 == 0)
+                {
+                    ++b;
+                    sb = int((g_pat ? pat_next() : t.u16()) % unsigned(2 * SC_EXT + 1)) - SC_EXT;
+                }
+                blk[i] = b;
+                sx[i] = sb;
+            }
+        }
+        for (unsigned i = 0; i < n; ++i) { for (unsigned j = 0; j < n; ++j) { B[size_t(i) * n + j] = blk[i] == blk[j] ? R(rd_int(t, 3)) : R(0); } }
+        bbt(B, R(1));
+        for (unsigned i = 0; i < n; ++i) { for (unsigned j = 0; j < n; ++j) { at(i, j) = std::ldexp(at(i, j), sx[i] + sx[j]); } }
+        extreme = true;
+        cx.label(L_BAD_SCALE);
+        cx.label(L_EXTREME_SCALE);
         break; }
     case 4: // symmetric indefinite (LDL) / maybe not SPD (LLT may legitimately fail)
         for (auto &v : B) { v = kind == 0 ? R(rd_int(t, 9)) : rd_real(t, -2, 2); }
@@ -579,6 +631,7 @@ static void check_sym(Tape &t, Ctx &cx, unsigned n, int kind)
             if (!(fabsl(s) <= bound)) { cx.fail(sig, "%s: |b - A x|(%u) = %.3Lg exceeds %.3Lg (n=%u, class %d)", what, i, fabsl(s), bound, n, cls); }
         }
     };
+    if (!extreme) // (with pivots near both ends of the range the solution itself leaves the normal range)
     {
         std::vector<R> b(n);
         bool ints = t.coin();
@@ -589,6 +642,7 @@ static void check_sym(Tape &t, Ctx &cx, unsigned n, int kind)
         if (finite_all(x.p, n)) { resid(x.p, b, kind ? "llt:solve_residual" : "ldl:solve_residual", kind ? "llt_solve" : "ldl_solve", 1); }
         else { ++cx.rep->excluded; }
     }
+    if (!extreme)
     {
         Blk I1(size_t(n) * n), I2(size_t(n) * n), tmp(n);
         if (kind) { a_real_llt_inv(n, A.p, tmp.p, I1.p); a_real_llt_inv_(n, A.p, I2.p); }
@@ -615,12 +669,13 @@ static void check_sym(Tape &t, Ctx &cx, unsigned n, int kind)
         {
             LD d = kind ? L[size_t(i) * n + i] * L[size_t(i) * n + i] : D[i];
             fac.push_back(kind ? L[size_t(i) * n + i] : D[i]);
-            prod *= d;
+            prod *= kind ? L[size_t(i) * n + i] : D[i]; // Cholesky: product of the diagonal first, squared below (the order the prefix guard checks)
             LD lg = kind ? 2 * logl(L[size_t(i) * n + i]) : logl(fabsl(d));
             lsum += lg;
             labs += fabsl(lg);
             if (d < 0) { sg = -sg; }
         }
+        if (kind) { prod *= prod; }
         LD det = kind ? a_real_llt_det(n, A.p) : a_real_ldl_det(n, A.p);
         LD lnd = kind ? a_real_llt_lndet(n, A.p) : a_real_ldl_lndet(n, A.p);
         LD lb = CSAFE * (n + 2) * U_ * (labs + 1);
